@@ -151,28 +151,35 @@ deriving Inhabited
 
 def paramNumberOf (n : Node) : Option Nat := if n.isKind "ParamRef" then some (n.get "Number").natVal else none
 
+/-- `n.Cols.Items[i]` -/
+def colItem (cols : Node) (i : Nat) : Option Node := if cols.isNull then none else cols.items[i]?
+
+/-- one step of the two loops of the InsertStmt arm: the i-th value, if a bare placeholder, is recorded with
+the i-th target column as parent — `n.Cols.Items[i]` is not bounds-checked ("TODO: Out-of-bounds panic") -/
+def insertStep (cols : Node) (rv : Option Node) (unwrapResTarget : Bool) (acc : PAcc) (it : Node × Nat) : PAcc :=
+  if acc.panic.isSome then acc else
+  let v := if unwrapResTarget then (if it.1.isKind "ResTarget" then it.1.get "Val" else .null) else it.1
+  if !v.isKind "ParamRef" then acc else
+  match colItem cols it.2 with
+  | none => { acc with panic := some "find_params.go: n.Cols.Items[i] out of range" }
+  | some c =>
+    { acc with refs := acc.refs ++ [{ parent := .node c, rv := rv, number := (v.get "Number").natVal, location := (v.get "Location").intVal }], seen := (v.get "Location").intVal :: acc.seen }
+
+def insertAddRefs (cols : Node) (rv : Option Node) (acc : PAcc) (items : List Node) (unwrapResTarget : Bool) : PAcc :=
+  (items.zipIdx).foldl (insertStep cols rv unwrapResTarget) acc
+
 /-- the InsertStmt arm of Visit -/
 def insertArm (n : Node) (acc : PAcc) : PAcc :=
   let sel := n.get "SelectStmt"
   if !sel.isKind "SelectStmt" then acc else
   let cols := n.get "Cols"
-  let colItem (i : Nat) : Option Node := if cols.isNull then none else cols.items[i]?
   let rv := let r := n.get "Relation"; if r.isNull then none else some r
-  let addRefs (acc : PAcc) (items : List Node) (unwrapResTarget : Bool) : PAcc :=
-    (items.zipIdx).foldl (fun (acc : PAcc) (it : Node × Nat) =>
-      if acc.panic.isSome then acc else
-      let v := if unwrapResTarget then (if it.1.isKind "ResTarget" then it.1.get "Val" else .null) else it.1
-      if !v.isKind "ParamRef" then acc else
-      match colItem it.2 with
-      | none => { acc with panic := some "find_params.go: n.Cols.Items[i] out of range" }
-      | some c =>
-        { acc with refs := acc.refs ++ [{ parent := .node c, rv := rv, number := (v.get "Number").natVal, location := (v.get "Location").intVal }], seen := (v.get "Location").intVal :: acc.seen }) acc
   let tl := sel.get "TargetList"
   if tl.isNull then { acc with panic := some "find_params.go: s.TargetList is nil" } else
-  let acc := addRefs acc tl.items true
+  let acc := insertAddRefs cols rv acc tl.items true
   let vl := sel.get "ValuesLists"
   if vl.isNull then { acc with panic := some "find_params.go: s.ValuesLists is nil" } else
-  vl.items.foldl (fun acc row => if row.isKind "List" then addRefs acc row.items false else acc) acc
+  vl.items.foldl (fun acc row => if row.isKind "List" then insertAddRefs cols rv acc row.items false else acc) acc
 
 /-- the ParamRef arm of Visit -/
 def paramArm (d : PDown) (n : Node) (acc : PAcc) : PAcc :=
@@ -355,7 +362,7 @@ def resolveOne (c : Cat) (names : List (Nat × String)) (tables : List TableName
                | [k] => some ("", k)
                | [a, k] => some (a, k)
                | _ => none) with
-        | none => .error s!"panic:too many field items: {items.length}"
+        | none => .error s!"other:column reference has too many parts: {items.length}"
         | some (alias, key) => resolveCompare names num key tm (searchTables tables aliasMap alias)
     | "FuncCall" =>
       let argsN := n.get "Args"
@@ -695,6 +702,35 @@ structure Analysis where
   columns : List Column
   edits : List SEdit
 deriving Repr, Inhabited
+
+/-- validate.InsertStmt: a single VALUES row must have as many expressions as the statement names columns -/
+def validateInsert (stmt : Node) : Res Unit :=
+  let sel := stmt.get "SelectStmt"
+  if !sel.isKind "SelectStmt" then .ok () else
+  let vl := sel.get "ValuesLists"
+  if vl.isNull then .ok () else
+  match vl.items with
+  | [sub] =>
+    (match sub with
+     | .list vals =>
+       let cols := stmt.get "Cols"
+       if cols.isNull then .error "panic:validate.InsertStmt: stmt.Cols is nil" else
+       if cols.items.length > vals.length then .error "other:INSERT has more target columns than expressions"
+       else if cols.items.length < vals.length then .error "other:INSERT has more expressions than target columns"
+       else .ok ()
+     | _ => .ok ())
+  | _ => .ok ()
+
+def supportedStmtKinds : List String := ["SelectStmt", "DeleteStmt", "InsertStmt", "TruncateStmt", "UpdateStmt"]
+
+/-- the checks parseQuery makes before the analysis proper; `early` / `late` are the verdicts of the
+validators that are not modelled (ParamStyle, ParamRef | Pluck, FuncCall, metadata.Parse, Cmd) -/
+def preflight (raw : Node) (early late : Bool) : Res Unit :=
+  if early then .error "other:validate" else
+  let stmt := raw.get "Stmt"
+  if !supportedStmtKinds.contains stmt.kind then .error "other:unsupported statement type" else do
+  if stmt.isKind "InsertStmt" then validateInsert stmt
+  if late then .error "other:validate" else pure ()
 
 def analyze (c : Cat) (raw : Node) (names : List (Nat × String)) (positional : Bool) : Res Analysis := do
   let stmt := raw.get "Stmt"
